@@ -43,6 +43,9 @@ structure Loc where
 
 inductive OpKind where
   | read | write | lock | borrowMut
+  /-- a mutation of an atomic / once-cell / cell that takes no guard: `.store`, `.fetch_add`, `.swap`,
+  `.compare_exchange`, `.get_or_init`, `.call_once` -/
+  | atomic
   deriving DecidableEq, Repr
 
 /-- One lock operation in the source: the function performing it (number), its kind, the
@@ -103,6 +106,7 @@ def Op.actKind (locs : List Loc) (o : Op) : ActKind :=
   | .write => .acqWrite
   | .lock => .acqWrite
   | .borrowMut => if isPrivateCell locs o.loc then .compute else .mutate
+  | .atomic => .mutate
 
 /-- No operation of a function reachable in the evaluation phase writes. -/
 def evalPhaseReadOnly (mask : Nat) (locs : List Loc) (ops : List Op) : Bool :=
